@@ -1,9 +1,9 @@
-\* quick, exhaustive: every sequence of <= 2 merge sets of <= 2 indices out of <= 4, condense or not
+\* thorough, exhaustive: every sequence of <= 3 merge sets of <= 3 indices out of <= 4
 SPECIFICATION Spec
 CONSTANTS
   MaxN = 4
-  MaxSets = 2
-  MaxLen = 2
+  MaxSets = 3
+  MaxLen = 3
   Mutant = "none"
 INVARIANT TypeOK
 INVARIANT Downwards
